@@ -310,7 +310,7 @@ def deep_session(seed):
     return s.ops
 
 
-def queue_full_session(seed):
+def queue_full_session(seed, groups=False):
     """C01 / C02 / C03 / C16: the packet of one reliable bunch is lost again and again while the sender (which keeps at most 255 bunches
     unacknowledged: `ifroom`) goes on, so the receiver's out-of-order queue fills up to its bound (255) and the next bunches of the
     channel are REFUSED (their packets must not be acknowledged, the bunches must come again later).  The refused bunches travel alone
@@ -335,8 +335,14 @@ def queue_full_session(seed):
     s.op("drop 1")
     extra = rng.randint(1, 6)
     trailer = rng.choice(["upart", "rpart-other", "rpart-same", "upart", "plain", "ufinal-orphan", "none", "rpart-other", "upart", "rpart-same"])
+    if groups:
+        trailer = rng.choice(["rpart-other", "upart", "upart", "plain"])       # C03: the bunches that are refused are themselves the fragments of a group (below)
     for k in range(255 + extra):
-        s.op("ifroom 1 %d send 1 %d 8 0 0 %d %d" % (ch, ch, rng.choice([0, 1, 8]), s.next_pseed()))
+        fl = 8
+        if groups and k >= 252:
+            # the bunches that meet the full queue are the fragments of one reliable group
+            fl = 200 if k == 252 else (328 if k == 255 + extra - 1 else 72)
+        s.op("ifroom 1 %d send 1 %d %d 0 0 %d %d" % (ch, ch, fl, rng.choice([0, 1, 8]) if fl == 8 else rng.choice([8, 16]), s.next_pseed()))
         if k >= 254 and trailer != "none":
             if trailer == "plain":
                 s.op("send 1 %d 0 0 0 8 %d" % (other, s.next_pseed()))
@@ -522,6 +528,66 @@ def close_burst_session(seed):
     drain(s, 1, 2, rounds=3, update=True)
     s.op("send 1 %d 8 0 0 24 %d" % (re, s.next_pseed()))
     drain(s, 1, 2, rounds=3, update=True)
+    s.op("nodes")
+    s.op("chans 1")
+    s.op("chans 2")
+    return s.ops
+
+
+def renak_session(seed):
+    """C04 / C01 / C10: reliable bunches that are PROCESSED BUT NOT ACKNOWLEDGED - they share their datagram with a fragment the receiver refuses (an
+    unreliable fragment whose initial fragment was lost), so the datagram is NAKed although its other bunches were delivered - and come again as
+    retransmissions: every one of them must be recognised as a duplicate, whether it is a plain bunch, opens its channel, closes it, or both.  The receiver
+    does not run `utcp_update` between the delivery and the retransmission (that history is the known finding K18); updates follow afterwards."""
+    rng = random.Random(seed)
+    s = Session(rng)
+    s.op("reset")
+    s.op("conn 1")
+    s.op("conn 2")
+    a_out, b_out = seq_choice(rng), seq_choice(rng)
+    s.op("seqinit 1 %d %d" % (b_out, a_out))
+    s.op("seqinit 2 %d %d" % (a_out, b_out))
+    s.note("peers 1 2")
+    carrier = rng.choice([5, 64])
+    s.op("send 1 %d 9 0 1 8 %d" % (carrier, s.next_pseed()))
+    s.op("send 1 2 9 0 1 8 %d" % s.next_pseed())
+    drain(s, 1, 2, rounds=1)
+    fresh = [7, 9, 11, 130, 8200]
+    for _ in range(rng.randint(1, 4)):
+        # the initial fragment of an unreliable group is lost ...
+        s.op("send 1 %d 192 0 0 %d %d" % (carrier, rng.choice([8, 16]), s.next_pseed()))
+        s.op("flush 1")
+        s.op("drop 1")
+        # ... the next datagram carries reliable bunches and the now orphaned later fragment of that group
+        riders = []
+        for _ in range(rng.randint(1, 3)):
+            kind = rng.choice(["plain", "open", "close", "openclose", "open", "openclose"])
+            if kind == "plain":
+                riders.append("send 1 2 8 0 0 %d %d" % (rng.choice([0, 8, 24]), s.next_pseed()))
+            elif kind == "close" and fresh:
+                ch = fresh.pop()
+                s.op("send 1 %d 9 0 1 8 %d" % (ch, s.next_pseed()))
+                drain(s, 1, 2, rounds=1)
+                riders.append("send 1 %d 10 %d 0 %d %d" % (ch, rng.randint(0, 14), rng.choice([0, 8]), s.next_pseed()))
+            elif fresh:
+                ch = fresh.pop()
+                riders.append("send 1 %d %d 0 1 %d %d" % (ch, 9 if kind == "open" else 11, rng.choice([8, 24]), s.next_pseed()))
+        orphan = "send 1 %d %d 0 0 16 %d" % (carrier, rng.choice([320, 64]), s.next_pseed())
+        pos = rng.randint(0, len(riders))
+        for l in riders[:pos] + [orphan] + riders[pos:]:
+            s.op(l)
+        s.op("flush 1")
+        s.op("dla 2 1")
+        s.op("tick 250000000")
+        s.op("flush 2")
+        s.op("dla 1 2")          # the NAK: the sender queues the retransmissions
+        s.op("flush 1")
+        s.op("dla 2 1")          # ... which arrive before the receiver's next update
+        s.op("chans 2")
+        drain(s, 1, 2, rounds=2, update=True)
+    s.note("drain")
+    drain(s, 1, 2, rounds=4, update=True)
+    s.note("drained")
     s.op("nodes")
     s.op("chans 1")
     s.op("chans 2")
